@@ -21,7 +21,8 @@ Record hstate := mkH {
   next_handle : N;
   mount_live : bool;             (* MountFds.map holds a live MountFd for the mount of the export *)
   fds : N;
-  leaked : N
+  leaked : N;
+  oflags : list (N * N)          (* HandleData.open_flags of each handle (what check_fd_flags compares with) *)
 }.
 
 Definition hget (s : hstate) (h : N) : option N := mget N.eqb (handles s) h.
@@ -42,12 +43,12 @@ Definition h_import (c : hcfg) (s : hstate) (root : target) : hstate :=
   let i1 := import (ino s) (hc c) root in
   match eff_fh (hc c) root with
   | Some _ => let '(l, f, k) := mount_get (mount_live s) (fds s + 1) (leaked s) in
-              mkH i1 (handles s) (cookies s) (next_handle s) l (f - 1) k
-  | None => mkH i1 (handles s) (cookies s) (next_handle s) (mount_live s) (fds s + 1) (leaked s)
+              mkH i1 (handles s) (cookies s) (next_handle s) l (f - 1) k (oflags s)
+  | None => mkH i1 (handles s) (cookies s) (next_handle s) (mount_live s) (fds s + 1) (leaked s) (oflags s)
   end.
 
 (* PassthroughFs::new: /proc/self/fd and /proc/self/mountinfo; then init() -> import() *)
-Definition h_empty : hstate := mkH empty_state [] [] 1 false 2 0.
+Definition h_empty : hstate := mkH empty_state [] [] 1 false 2 0 [].
 Definition h_fresh (c : hcfg) (root : target) : hstate := h_import c h_empty root.
 
 Inductive hop :=
@@ -57,7 +58,7 @@ Inductive hop :=
 | HCreate (parent : N) (t : option target) (existed open_ok : bool)
 | HReaddir (plus : bool) (i h : N) (host : option bool) (ents : list (target * bool))
      (* host: None = lseek/getdents failed; Some b = getdents returned a non-empty buffer (b) *)
-| HUse (kind : N) (i h : N)                         (* 0 getattr(handle) 1 fsync 2 fsyncdir 3 flush 4 lseek *)
+| HUse (kind : N) (i h : N)                         (* 0 getattr(handle) 1 fsync 2 fsyncdir 3 flush 4 lseek 5 read 6 write 7 fallocate 8 setattr(handle) *)
 | HDestroy (root : target).
 
 Inductive hreply :=
@@ -69,7 +70,7 @@ Inductive hreply :=
 | HUnit.
 
 Definition with_ino (s : hstate) (i : istate) (f : N) : hstate :=
-  mkH i (handles s) (cookies s) (next_handle s) (mount_live s) f (leaked s).
+  mkH i (handles s) (cookies s) (next_handle s) (mount_live s) f (leaked s) (oflags s).
 
 (* descriptors owned by inode objects: do_lookup keeps the O_PATH descriptor iff it inserts an
    InodeHandle::File; forget_one closes it when the object is dropped.  Everything else a
@@ -79,6 +80,21 @@ Definition fds_after_ino (s : hstate) (i1 : istate) : N :=
   fds s + file_inodes i1 - file_inodes (ino s).
 
 Definition wrap_h (a : N) : N := a mod 18446744073709551616.
+Definition O_DIRECTORY : N := 65536.
+Definition O_RDWR : N := 2.
+Definition O_WRONLY : N := 1.
+
+Definition set_oflags (s : hstate) (m : list (N * N)) : hstate :=
+  mkH (ino s) (handles s) (cookies s) (next_handle s) (mount_live s) (fds s) (leaked s) m.
+
+(* check_fd_flags: when the flags recorded for the handle differ from the request's, fcntl(F_SETFL)
+   and record the request's flags -- also when the I/O that follows fails (EISDIR on a directory
+   handle: an opendir handle loses its O_DIRECTORY bit this way) *)
+Definition check_fd_flags (s : hstate) (h flags : N) : hstate :=
+  match mget N.eqb (oflags s) h with
+  | Some f => if f =? flags then s else set_oflags s (mset N.eqb (oflags s) h flags)
+  | None => s
+  end.
 
 (* open_inode: the inode must be in the table and be a regular file or directory *)
 Definition open_inode_ok (s : hstate) (i : N) : bool :=
@@ -98,12 +114,16 @@ Definition hstep (c : hcfg) (s : hstate) (o : hop) : hreply * hstate :=
       else if negb host_ok then (HHost, s)
       else (HOk (Some (next_handle s)),
             mkH (ino s) (mset N.eqb (handles s) (next_handle s) i) (cookies s) (wrap_h (next_handle s + 1))
-                (mount_live s) (fds s + 1) (leaked s))
+                (mount_live s) (fds s + 1) (leaked s)
+                (* do_open records the request's flags (O_RDONLY here); opendir adds O_DIRECTORY *)
+                (mset N.eqb (oflags s) (next_handle s) (if dir then O_DIRECTORY else 0)))
   | HRelease dir i h =>
       if (if dir then no_opendir c else no_open c) then (HErr ENOSYS, s)
       else if handle_get s h i then
+        (* do_release: the handle (with its descriptor and recorded flags) and, whatever those flags
+           say, its directory-position cookie *)
         (HUnit, mkH (ino s) (mdel N.eqb (handles s) h) (mdel N.eqb (cookies s) h) (next_handle s)
-                    (mount_live s) (fds s - 1) (leaked s))
+                    (mount_live s) (fds s - 1) (leaked s) (mdel N.eqb (oflags s) h))
       else (HErr EBADF, s)
   | HCreate p t existed open_ok =>
       (* create_file_excl opened the new file (+1) unless it existed; do_lookup; open_inode for an
@@ -115,7 +135,8 @@ Definition hstep (c : hcfg) (s : hstate) (o : hop) : hreply * hstate :=
           if no_open c then (HCreated i None, s1)
           else (HCreated i (Some (next_handle s)),
                 mkH i1 (mset N.eqb (handles s) (next_handle s) i) (cookies s) (wrap_h (next_handle s + 1))
-                    (mount_live s) (fds s1 + 1) (leaked s))
+                    (mount_live s) (fds s1 + 1) (leaked s)
+                    (mset N.eqb (oflags s) (next_handle s) O_RDWR))
       | (r, i1) => (HR r, with_ino s i1 (fds_after_ino s i1))
       end
   | HReaddir plus i h host ents =>
@@ -128,29 +149,36 @@ Definition hstep (c : hcfg) (s : hstate) (o : hop) : hreply * hstate :=
                        | _ => mdel N.eqb (cookies s) h
                        end in
         match host with
-        | None => (HHost, mkH (ino s) (handles s) ck (next_handle s) (mount_live s) (fds s) (leaked s))
+        | None => (HHost, mkH (ino s) (handles s) ck (next_handle s) (mount_live s) (fds s) (leaked s) (oflags s))
         | Some _ =>
             let (l, i1) := readdir_entries (hc c) plus (ino s) ents in
-            (HR (REnts l), mkH i1 (handles s) ck (next_handle s) (mount_live s) (fds_after_ino s i1) (leaked s))
+            (HR (REnts l), mkH i1 (handles s) ck (next_handle s) (mount_live s) (fds_after_ino s i1) (leaked s) (oflags s))
         end
       else (HErr EBADF, s)
   | HUse kind i h =>
-      (match kind with
-       | 0 => if negb (valid (ino s) i) then HErr EBADF
-              else if negb (no_open c) && negb (handle_get s h i) then HErr EBADF else HHost
-       | 1 => if no_open c then (if open_inode_ok s i then HHost else HErr EBADF)
-              else if handle_get s h i then HHost else HErr EBADF
-       | 2 => if no_opendir c then (if open_inode_ok s i then HHost else HErr EBADF)
-              else if handle_get s h i then HHost else HErr EBADF
-       | 3 => if no_open c then HErr ENOSYS else if handle_get s h i then HHost else HErr EBADF
-       | _ => if handle_get s h i then HHost else HErr EBADF
-       end, s)
+      (* requests that present (inode, handle); none of them touches the handle or cookie tables.
+         0 getattr / 8 setattr with a handle, 1 fsync, 2 fsyncdir, 3 flush, 4 lseek, 5 read (flags O_RDONLY),
+         6 write (flags O_WRONLY), 7 fallocate.  read/write go through check_fd_flags before the I/O. *)
+      match kind with
+      | 0 | 8 => (if negb (valid (ino s) i) then HErr EBADF
+                  else if negb (no_open c) && negb (handle_get s h i) then HErr EBADF else HHost, s)
+      | 1 | 7 => (if no_open c then (if open_inode_ok s i then HHost else HErr EBADF)
+                  else if handle_get s h i then HHost else HErr EBADF, s)
+      | 2 => (if no_opendir c then (if open_inode_ok s i then HHost else HErr EBADF)
+              else if handle_get s h i then HHost else HErr EBADF, s)
+      | 3 => (if no_open c then HErr ENOSYS else if handle_get s h i then HHost else HErr EBADF, s)
+      | 5 => if no_open c then (if open_inode_ok s i then HHost else HErr EBADF, s)
+             else if handle_get s h i then (HHost, check_fd_flags s h 0) else (HErr EBADF, s)
+      | 6 => if no_open c then (if open_inode_ok s i then HHost else HErr EBADF, s)
+             else if handle_get s h i then (HHost, check_fd_flags s h O_WRONLY) else (HErr EBADF, s)
+      | _ => (if handle_get s h i then HHost else HErr EBADF, s)
+      end
   | HDestroy root =>
       (* handle_map.clear(): every handle's descriptor; inode_map.clear(): every O_PATH descriptor
          and, through the last Arc<MountFd>, the mount descriptor; then import() *)
       let cleared := mkS [] [] [] (next_inode (ino s)) (uids (ino s)) (next_uid (ino s)) (next_virt (ino s)) in
       let f := fds s - N.of_nat (length (handles s)) - file_inodes (ino s) - (if mount_live s then 1 else 0) in
-      (HUnit, h_import c (mkH cleared [] [] (next_handle s) false f (leaked s)) root)
+      (HUnit, h_import c (mkH cleared [] [] (next_handle s) false f (leaked s) []) root)
   end.
 
 (* what the tables account for *)
